@@ -162,20 +162,23 @@ func makeHistory(f *lib.Flags, pool *seedPool, stream, idx int) (History, []stri
 	return h, ops
 }
 
-// classes of errors the resolver model (with placeholder type and identity resolution) produces
-var modelClasses = map[string]bool{
-	"no-such-submodule": true, "no-such-module": true, "augment-not-found": true, "duplicate-key": true, "duplicate-node": true,
-	"cycle": true, "unknown-group": true, "bad-tristate": true, "bad-max-elements": true, "bad-min-elements": true,
-	"bad-ordered-by": true, "other": true, "deviate-no-target": true, "deviate-add-many-defaults": true,
-	"deviate-add-default-exists": true, "deviate-delete-default-leaflist": true, "deviate-delete-default-missing": true,
-	"deviate-delete-default-mismatch": true, "deviate-min-nonlist": true, "deviate-max-nonlist": true,
-	"deviate-delete-min-mismatch": true, "deviate-delete-max-mismatch": true, "deviate-unknown-kind": true,
-	"deviate-bad-type": true, "deviate-no-parent": true, "deviate-already-removed": true,
+// compareOutcome compares the error records of Process with the model's.  When Go reports a link
+// failure (an import or include that cannot be resolved) only "errors vs no errors" is compared:
+// what else is reported after a failed link depends on the partially linked state, which the
+// identity and type layers leave outside their models.  Everywhere else the full error sets
+// (position and class) must be equal.
+func compareOutcome(goErrs, modelErrs []string) (same bool, mode string) {
+	for _, e := range goErrs {
+		if c := errClassOf(e); c == "no-such-module" || c == "no-such-submodule" {
+			return len(modelErrs) > 0, "errors-vs-none(link failure)"
+		}
+	}
+	g := append([]string{}, goErrs...)
+	m := append([]string{}, modelErrs...)
+	sort.Strings(g)
+	sort.Strings(m)
+	return strings.Join(g, "\n") == strings.Join(m, "\n"), "full error set"
 }
-
-// classFilter restricts the comparison to histories whose Go errors are of the classes above (the
-// state of drv_res before the type and identity layers were plugged in).
-var classFilter = os.Getenv("VERIF_C01_CLASSFILTER") == "1"
 
 func errClassOf(rec string) string {
 	if i := strings.LastIndexByte(rec, ':'); i >= 0 {
@@ -504,8 +507,10 @@ func main() {
 	res.Notes = append(res.Notes, a.deepNotes...)
 	res.Notes = append(res.Notes,
 		"bound per history: "+boundText+" wall clock in a crash-isolated child (GOMEMLIMIT=1536MiB, max stack 512 MiB, empty working directory)",
-		"fuzz share: histories outside the modelled domain (a text does not parse, texts above 24 KiB, statements the resolver model does not interpret, "+
-			"error classes of the type/identity layers that drv_res resolves by placeholder) are checked for survival only")
+		"fuzz share: histories outside the modelled domain (a text does not parse, no text accepted, texts above 24 KiB, statements the resolver model does "+
+			"not interpret: refine, augment below uses, relative augment paths, posix-pattern, undecodable strings) are checked for survival only",
+		"model comparison: full error sets (position, class) of Process; when Go reports a link failure (no-such-module / no-such-submodule) only errors-vs-no-errors, "+
+			"because what else is reported after a failed link depends on partially linked state outside the identity/type models")
 	res.Rule = "histories = sequences of source texts loaded (errors ignored) into one Modules, Process, ToEntry of every module and submodule, full walk " +
 		"(Dir, RPC input/output) calling GetErrors, Path, ReadOnly, Namespace, InstantiatingModule, DefaultValues, Find (own path, bogus, relative), Print; " +
 		"also yang.Parse alone on every text. Streams in order: corpus/C01 (crash witnesses of DESIGN section 8), every .yang file and every YANG literal of " +
@@ -587,6 +592,10 @@ func (a *agg) evaluate(f *lib.Flags, d *driver, j job, h *History, v *Verdict, o
 		switch {
 		case !allParse:
 			why = "a text does not pass the generic parser"
+		case j.deep != nil && j.deep.depth > 200:
+			// the compiled model mirrors the polynomial-time loops of the Go code on lists (the identity
+			// closure takes 38 s at a chain of 400): the depth cases are about the Go side surviving
+			why = "depth case above 200 (the model is not asked)"
 		case v.Rep.Wire == "":
 			if !someAcc {
 				why = "no text accepted by Modules.Parse"
@@ -594,17 +603,6 @@ func (a *agg) evaluate(f *lib.Flags, d *driver, j job, h *History, v *Verdict, o
 				why = "texts above 24 KiB"
 			}
 		default:
-			outClass := ""
-			for _, e := range v.Rep.Errs {
-				if c := errClassOf(e); classFilter && !modelClasses[c] {
-					outClass = c
-					break
-				}
-			}
-			if outClass != "" {
-				why = "error class of the type/identity layers (placeholder in drv_res)"
-				break
-			}
 			b := func(x bool) string {
 				if x {
 					return "1"
@@ -615,7 +613,11 @@ func (a *agg) evaluate(f *lib.Flags, d *driver, j job, h *History, v *Verdict, o
 			switch {
 			case !ok:
 				why = "lean driver failed"
-				atomic.AddInt64(&a.driverBad, 1)
+				n := atomic.AddInt64(&a.driverBad, 1)
+				if n <= 5 {
+					raw, _ := json.Marshal(h)
+					os.WriteFile(fmt.Sprintf("/verif/.work/c01/driver-fail-%d.json", n), raw, 0o644)
+				}
 			case strings.HasPrefix(ans, "outsideModel"):
 				why = "statement the resolver model does not interpret (" + strings.TrimSpace(strings.TrimPrefix(ans, "outsideModel")) + ")"
 			case ans == "bad-op":
@@ -706,8 +708,10 @@ func (a *agg) evaluate(f *lib.Flags, d *driver, j job, h *History, v *Verdict, o
 		m := append([]string{}, modelErrs...)
 		sort.Strings(g)
 		sort.Strings(m)
-		if strings.Join(g, "\n") != strings.Join(m, "\n") {
-			what := fmt.Sprintf("Process outcome differs from the model: go %d error(s), model %d", len(g), len(m))
+		same, mode := compareOutcome(g, m)
+		a.whyFuzz["compared: "+mode]++
+		if !same {
+			what := fmt.Sprintf("Process outcome differs from the model (%s): go %d error(s), model %d", mode, len(g), len(m))
 			n, _ := a.res.Distribution["disagreements_total"].(int)
 			a.res.Distribution["disagreements_total"] = n + 1
 			if len(a.res.Disagreements) < 50 {
@@ -795,13 +799,9 @@ func replay(f *lib.Flags, emptyDir string) int {
 	g := append([]string{}, v.Rep.Errs...)
 	sort.Strings(g)
 	sort.Strings(m)
-	for _, e := range g {
-		if classFilter && !modelClasses[errClassOf(e)] {
-			fmt.Println("error class outside the resolver model (survival-only)")
-			return 0
-		}
-	}
-	if strings.Join(g, "\n") != strings.Join(m, "\n") {
+	same, mode := compareOutcome(g, m)
+	fmt.Println("comparison:", mode)
+	if !same {
 		fmt.Println("DIFFERENT")
 		return 1
 	}
